@@ -22,12 +22,14 @@ type Mutex struct {
 	locked bool
 }
 
+// Ready implements vrt.Waitable.
+//
 //go:norace
-func (m *Mutex) isFree() bool { return !m.locked }
+func (m *Mutex) Ready() bool { return !m.locked }
 
 func (m *Mutex) Lock() {
 	if s := vrt.Active; s != nil && s.CurID() >= 0 {
-		s.Point("mutex.Lock", m.isFree)
+		s.Point("mutex.Lock", m)
 		if s.Poisoned() {
 			return
 		}
@@ -72,8 +74,10 @@ type Once struct {
 	running bool
 }
 
+// Ready implements vrt.Waitable.
+//
 //go:norace
-func (o *Once) notRunning() bool { return !o.running }
+func (o *Once) Ready() bool { return !o.running }
 
 //go:norace
 func (o *Once) get() (done bool) { return o.done }
@@ -84,7 +88,7 @@ func (o *Once) set(running, done bool) { o.running, o.done = running, done }
 func (o *Once) Do(f func()) {
 	s := vrt.Active
 	if s != nil && s.CurID() >= 0 {
-		s.Point("once.Do", o.notRunning)
+		s.Point("once.Do", o)
 		if s.Poisoned() {
 			return
 		}
